@@ -176,7 +176,7 @@ def tlc(module, cfg, env=None, workers=1, timeout=600, xss="1g", xmx=None, deque
     # bounded heaps: up to a dozen trace validators run side by side, and the JVM's default (a quarter of
     # the machine per process) invites the kernel's OOM killer
     if workers == 1:
-        xmx = "2g" if xmx in (None, "3g", "4g") else xmx
+        xmx = "3g" if xmx in (None, "3g", "4g") else xmx
     else:
         xmx = xmx or "12g"
     jopts.append("-Xmx" + xmx)
